@@ -17,6 +17,7 @@ type storeGenState struct {
 	parents map[string][]string       // node -> parents (any edge)
 	ops     []sOp
 	kinds   map[string]int
+	extra   []string // further ids to dump
 }
 
 const storeBase = int64(1700000000) * 1e9
@@ -79,9 +80,26 @@ func (g *storeGenState) value() uint64 {
 	}
 }
 
+// identities that collide when type and key are concatenated (with or without the "" -> "0"
+// normalisation): splits of one string at different positions
+var storeCollide = []string{"value10", "ab0", "abc0", "tA1"}
+
+func (g *storeGenState) collidingIdent() (string, string) {
+	s := storeCollide[g.r.Intn(len(storeCollide))]
+	i := 1 + g.r.Intn(len(s)-1)
+	typ, key := s[:i], s[i:]
+	if key == "0" && g.r.Intn(2) == 0 {
+		key = ""
+	}
+	return typ, key
+}
+
 func (g *storeGenState) dataPoint(target string) sPoint {
 	typ := storeTypes[g.r.Intn(len(storeTypes))]
 	key := storeKeys[g.r.Intn(len(storeKeys))]
+	if g.r.Intn(4) == 0 {
+		typ, key = g.collidingIdent()
+	}
 	p := sPoint{Type: typ, Key: key, VBits: g.value(), Text: storeTexts[g.r.Intn(len(storeTexts))]}
 	p.Time = g.freshTime(target, typ, key)
 	if g.r.Intn(4) == 0 {
@@ -207,7 +225,15 @@ func (g *storeGenState) anyEdge() (string, string, bool) {
 }
 
 func (g *storeGenState) refused() {
-	switch g.r.Intn(6) {
+	switch g.r.Intn(7) {
+	case 6: // the root gets a second parent y (accepted), then y is placed below the root: a cycle through the root
+		y := fmt.Sprintf("y%d", len(g.ops))
+		g.add("root-second-parent", sOp{Kind: "ep", Node: storeRootID, Parent: y, Points: []sPoint{g.tombPoint(0), g.typePoint("device")}})
+		g.parents[storeRootID] = append(g.parents[storeRootID], y)
+		g.edges[y+">"+storeRootID] = true
+		g.extra = append(g.extra, y)
+		p := g.pickNode()
+		g.add("refused-cycle-through-root", sOp{Kind: "ep", Node: y, Parent: p, Points: []sPoint{g.tombPoint(0), g.typePoint("group")}})
 	case 0: // self edge
 		n := g.pickNode()
 		g.add("refused-self", sOp{Kind: "ep", Node: n, Parent: n, Points: []sPoint{g.tombPoint(0), g.typePoint("group")}})
@@ -313,6 +339,7 @@ func storeGen(r *rand.Rand, id int, flavour string) *sScript {
 		s.Nodes = append(s.Nodes, n)
 	}
 	s.Nodes = append(s.Nodes, "orphan0", "orphan1")
+	s.Nodes = append(s.Nodes, g.extra...)
 	for _, op := range g.ops {
 		if op.Kind == "ep" && len(op.Node) > 0 && op.Node[0] == 'x' {
 			s.Nodes = append(s.Nodes, op.Node)
